@@ -82,7 +82,70 @@ def plan(tier, seed):
     return ([{'kind': 'random', 'seed': seed, 'idx': i} for i in range(n)] +
             [{'kind': 'parallel-kill', 'seed': seed, 'idx': i} for i in range(40 if tier == 'quick' else 400)] +
             [{'kind': 'long-history', 'seed': seed, 'idx': i} for i in range(40 if tier == 'quick' else 400)] +
-            [{'kind': 'live', 'seed': seed, 'idx': i} for i in range(3 if tier == 'quick' else 30)])
+            [{'kind': 'live', 'seed': seed, 'idx': i} for i in range(3 if tier == 'quick' else 30)] +
+            [{'kind': 'live-stalled-subscriber', 'seed': seed, 'idx': i} for i in range(1 if tier == 'quick' else 4)])
+
+
+def live_stalled_subscriber(spec, res):
+    """a subscriber of the event channel that has stopped reading (a hung plugin, a stopped circus-top) while the
+    daemon publishes thousands of events: requests keep being answered at once"""
+    import time
+    import zmq
+    from vlib import live
+    d = live.Daemon('', strace=False)
+    d.ini = (d.header(check_delay=0.5) + '[watcher:a]\ncmd = %s\nnumprocesses = 2\ngraceful_timeout = 1\n'
+             'copy_env = True\n\n' % live.worker_cmd({'log': '@LOG@'})).replace('@DIR@', d.dir).replace('@LOG@', d.logdir)
+    with open(d.ini_path, 'w') as f:
+        f.write(d.ini)
+    ctx = zmq.Context()
+    subs = []
+    try:
+        d.start()
+        if not d.wait_ready(20):
+            res.inconclusive.append('live: daemon not ready: ' + d.output()[-200:])
+            return
+        for i in range(1 + spec['idx'] % 2):
+            sub = ctx.socket(zmq.SUB)
+            sub.setsockopt(zmq.LINGER, 0)
+            sub.setsockopt(zmq.SUBSCRIBE, b'')
+            sub.connect(d.pubsub)          # ... and is never read
+            subs.append(sub)
+        time.sleep(0.5)
+        c = d.client(timeout=8.0)
+        from circus.exc import CallError
+        worst = 0.0
+        nreq = 900
+        try:
+            for i in range(nreq):
+                cmd, props = ('set', {'name': 'a', 'options': {'send_hup': bool(i % 2), 'graceful_timeout': 1 + i % 2,
+                                                               'stop_signal': [15, 2][i % 2], 'stop_children': bool(i % 3),
+                                                               'warmup_delay': 0}}) \
+                    if i % 10 else ('numwatchers', {})
+                t0 = time.time()
+                try:
+                    r = c.call({'command': cmd, 'properties': props})
+                except CallError as e:
+                    r = {'status': 'CallError: %s' % e}
+                dt = time.time() - t0
+                worst = max(worst, dt)
+                res.obs['live_requests_with_a_stalled_subscriber'] += 1
+                if r.get('status') != 'ok':
+                    res.violation('C05/live:request-unanswered[event-subscriber-not-reading]',
+                                  'request %d (%s) with %d event subscriber(s) that never read, after about %d published '
+                                  'events: %s %s after %.1fs' % (i, cmd, len(subs), i * 5, r.get('status'), str(r.get('reason'))[:80], dt))
+                    break
+        finally:
+            c.stop()
+        res.hist['live_worst_latency_with_stalled_subscriber_ms'][int(worst * 1000) // 50 * 50] += 1
+        if worst > 4.0 and not res.viol:
+            res.inconclusive.append('live: a request took %.1fs with a stalled subscriber (loaded machine?)' % worst)
+        res.obs['live_daemons'] += 1
+        res.nontrivial(repr(('live-stalled-subscriber', len(subs))))
+    finally:
+        for sub in subs:
+            sub.close()
+        ctx.destroy(linger=0)
+        d.cleanup()
 
 
 def live_case(spec, res):
@@ -104,6 +167,11 @@ def live_case(spec, res):
 
 def run_case(spec):
     res = CaseResult()
+    if spec.get('kind') == 'live-stalled-subscriber':
+        live_stalled_subscriber(spec, res)
+        for v in res.viol:
+            v['spec'] = spec
+        return res
     if spec.get('kind') == 'live':
         live_case(spec, res)
         for v in res.viol:
